@@ -13,7 +13,9 @@ LEAN_TARGETS = ["PasslibVerif.Props.C08", "PasslibVerif.Props.C08Crypt",
                 # the C08 theorem set instantiated for the Pbkdf / DesBcrypt / Static families of hasher models (generated: tools/dev/gen_c08_families.py)
                 "PasslibVerif.Props.C08Families", "PasslibVerif.Props.C08FamiliesPbkdf", "PasslibVerif.Props.C08FamiliesPbkdfExamples",
                 "PasslibVerif.Props.C08FamiliesDesBcrypt", "PasslibVerif.Props.C08FamiliesDesBcryptExamples",
-                "PasslibVerif.Props.C08FamiliesStatic", "PasslibVerif.Props.C08FamiliesStaticExamples"]
+                "PasslibVerif.Props.C08FamiliesStatic", "PasslibVerif.Props.C08FamiliesStaticExamples",
+                "PasslibVerif.Props.C08FamiliesWrap", "PasslibVerif.Props.C08FamiliesWrapExamples", "PasslibVerif.Props.C08FamiliesMisc",
+                "PasslibVerif.Props.C08FamiliesMiscExamples", "PasslibVerif.Props.C08FamiliesBcryptSha256"]
 ASSUMPTIONS = [
     "that a string whose settings (salt, cost, ident) were altered yields a different checksum is a property of the digest primitives, explored on the real code",
     "which strings parse to the same value (hex case, padding bits, …) is proved per format under C07 / C12; this check uses the real parsers to classify mutants",
